@@ -38,7 +38,7 @@ def main():
         rc, out = sh(f"git apply {os.path.join(d, 'patch.diff')}", cwd=REPO)
         if rc != 0:
             print(sid, "patch does not apply:", out)
-            rows.append((sid, meta["property"], "patch does not apply", ""))
+            rows.append((sid, meta["property"], meta.get("needs_to_manifest", "").replace("|", "/"), "patch does not apply", ""))
             continue
         results = {}
         try:
@@ -64,9 +64,9 @@ def main():
         for c in caught:
             v = results[c]["violations"]
             kind = "no-failing-input-found" if v and v[0].endswith("no-failing-input-found") else "failing input"
-        rows.append((sid, meta["property"], ", ".join(caught) or "MISSED", kind))
+        rows.append((sid, meta["property"], meta.get("needs_to_manifest", "").replace("|", "/"), ", ".join(caught) or "MISSED", kind))
     with open(os.path.join(SEEDED, "RESULTS.md"), "w") as f:
-        f.write("# Seeded changes: which checks catch which\n\n| seeded change | breaks | caught by | how |\n|---|---|---|---|\n")
+        f.write("# Seeded changes: which checks catch which\n\n| seeded change | breaks | what it needs to manifest | caught by | how |\n|---|---|---|---|---|\n")
         for r in rows:
             f.write("| " + " | ".join(r) + " |\n")
     # restore the evidence files of the unchanged tree
